@@ -4,7 +4,7 @@
 // ASSUME: values follow SC interleavings; ghost vector clocks honour the memory orders in the IR
 // ASSUME: the pool object is a harness fake (signals[] point to each modelled thread's real thread_local my_box; mi.maxThreads=3); the master body replicates ThreadPool::runInternal and the worker body ThreadPool::threadLoop with the std::function 'work' replaced by a direct call; per_signal::wait/wakeup, cascade() and decascade() are the real code; 'fast mode' (burnPower) only - the mutex/condition-variable mode is not encoded
 // ASSUME: workers run exactly as many loop iterations as regions in which they are woken (a worker that is never woken again stays in wait() forever in the real pool; here it ends)
-// OB: ob_fork_join_fast tier=thorough unwind=90 timeout=2400 solver=cadical bounds="T=3 pool threads, two consecutive regions with num=3 then num=2, fast mode, 70 steps" desc="the work function runs exactly once on each tid < num and on no other; the master returns only after all of them finished; the second region is unaffected by the first; no deadlock; region entry and return are happens-before edges for plain data"
+// OB: ob_fork_join_fast tier=attic unwind=90 timeout=2400 solver=cadical bounds="T=3 pool threads, two consecutive regions with num=3 then num=2, fast mode, 70 steps" desc="the work function runs exactly once on each tid < num and on no other; the master returns only after all of them finished; the second region is unaffected by the first; no deadlock; region entry and return are happens-before edges for plain data"
 #include "vf.h"
 #include "vf_nodie.h"
 #include <condition_variable>
@@ -16,8 +16,15 @@
 
 namespace galois {
 namespace substrate {
-alignas(64) static unsigned char vf_fake_pool[sizeof(ThreadPool)];
-static ThreadPool& pool() { return *reinterpret_cast<ThreadPool*>(vf_fake_pool); }
+// a TYPED, never-constructed pool object (a raw byte buffer would make every pointer stored in it - e.g. the
+// signals vector - a byte-level value that CBMC cannot constant-propagate)
+union VfFakePool {
+  ThreadPool tp;
+  VfFakePool() {}
+  ~VfFakePool() {}
+};
+static VfFakePool vf_fake_pool;
+static ThreadPool& pool() { return vf_fake_pool.tp; }
 } // namespace substrate
 } // namespace galois
 
